@@ -414,24 +414,21 @@ def show_paths(paths):
 
 
 def skeleton(t):
-    """shape of a term with leaves abstracted: two terms with equal skeletons differ only in
-    constants, coefficients or which variable stands where (a 'local' difference)"""
+    """constructor shape of a term: scalar (arithmetic / variable / constant / subscript) positions
+    are holes.  Two terms with equal skeletons that differ do so only inside scalar expressions,
+    where the polynomial normal form is complete: a genuine difference."""
     if not isinstance(t, tuple) or not t:
         return "_"
     k = t[0]
     if not isinstance(k, str):
         return tuple(skeleton(x) for x in t)
-    if k in ("const", "param", "bound", "name"):
+    if k in ("const", "param", "bound", "name", "poly", "binop", "sub", "attr", "unop"):
         return "_"
-    if k == "poly":
-        return ("poly", tuple(sorted(tuple(sorted(repr(skeleton(a)) for a in mono)) for mono, c in t[1])))
-    if k == "attr":
-        return ("attr", skeleton(t[1]), t[2])
     if k == "cmp":
-        return ("cmp", skeleton(t[2]), skeleton(t[3]))
-    if k == "binop":
-        return ("binop", skeleton(t[2]), skeleton(t[3]))
-    return (k,) + tuple(skeleton(x) if isinstance(x, tuple) else "_" for x in t[1:])
+        return ("cmp", t[1], skeleton(t[2]), skeleton(t[3]))
+    if k == "call":
+        return ("call", t[1] if t[1][0] in ("name", "attr") else skeleton(t[1]), tuple(skeleton(a) for a in t[2]), tuple((n, skeleton(v)) for n, v in t[3]))
+    return (k,) + tuple(skeleton(x) if isinstance(x, tuple) else x for x in t[1:])
 
 
 def compare_paths(got, want):
